@@ -1970,8 +1970,8 @@ impl Prop for P {
             q(8, 120),
             0,
             // a round costs about one idle-poll period of the executor (tens of ms): the quick
-            // tier can only sample this, the thorough tier makes ~400 000 attempts
-            (1u8..=4, q(150, 2000)..=q(300, 5000), proptest::collection::vec(any::<u8>(), 1..24)).prop_map(|(workers, rounds, pauses)| Case::PingPong { workers, rounds: rounds as u16, pauses }),
+            // tier makes ~30 000 attempts, the thorough tier ~400 000
+            (1u8..=4, q(400, 2000)..=q(800, 5000), proptest::collection::vec(any::<u8>(), 1..24)).prop_map(|(workers, rounds, pauses)| Case::PingPong { workers, rounds: rounds as u16, pauses }),
         ));
         v.push(Plan::new("ws_exec_1worker", q(2400, 40_000), 0, exec_case(Just(1u8).boxed(), Just(0u8).boxed(), 8)));
         v.push(Plan::new("ws_exec_multi", q(9000, 150_000), 0, exec_case((2u8..=4).boxed(), Just(0u8).boxed(), 10)));
